@@ -231,3 +231,123 @@ def c17():
 
 
 SPECS.update({"C03": c03, "C05": c05, "C07": c07, "C08": c08, "C13": c13, "C14": c14, "C17": c17})
+
+
+# ------------------------------------------------------------------------------ tabmon-based properties
+def _tab_build(cfg="asan"):
+    return dict(name="tabmon", config=cfg, harness=["tabmon.c"])
+
+
+def _tab_run(mode, quick, thorough, args=(), name=None, timeout=1500):
+    return dict(name=name or mode, bin="tabmon", config="asan", mode=mode, cases=T(quick, thorough), timeout=timeout, args=list(args), chunks=64)
+
+
+TAB_ASSUME = ["the reference models are flat arrays with linear search, written independently of the trie / hash table",
+              "ASan/UBSan blind spots (non-adjacent overflows, recycled frees)", "assertions are enabled in the build under test"]
+PFX_RULE = ("Histories of 10..70 operations (add, duplicate add, remove, remove absent, remove near-duplicate, remove-by-source) "
+            "over a nesting-rich universe: 2-4 trunk addresses per family that share long prefixes, every length 0..32 / 0..128 incl. "
+            "/0 and full length, sibling bit flips, max-length from {len, len+1, full, <len, 255, random}, AS from {0,1,2,3,random,2^32-1}, "
+            "3 sources; every 16th case builds the chain of all 33/129 prefixes of one address in ascending, descending or random "
+            "order; pfxbig builds tables of thousands of realistic records. ")
+
+
+def c01():
+    return dict(
+        id="C01", level="exploration", engine="tabmon",
+        builds=[_tab_build()],
+        runs=[_tab_run("pfx", 4800, 96000), _tab_run("pfxbig", 16, 160, args=["records=6000"])],
+        floors={"c01/queries": T(5000000, 100000000), "c01/verdict/valid": T(500000, 10000000), "c01/verdict/not-found": T(200000, 4000000),
+                "c01/chain_tables": T(200, 4000), "c01/tables_with_len0_record": T(500, 10000), "c01/reason_lists_checked": T(2000000, 40000000)},
+        rule=(PFX_RULE + "After every 5 operations a query battery derived from the table contents runs: for every stored (prefix,len) the "
+              "lengths {len-1, len, len+1, maxlen, maxlen+1, full} x the prefix extended with 0-bits / 1-bits / random bits x AS "
+              "{record's AS, 0, unused}, plus random queries, 1/8 with non-zero host bits; via pfx_table_validate, pfx_table_validate_r "
+              "(fresh and reused reason buffer) and rtr_mgr_validate. Oracle: RFC 6811 over the flat model: covering = same family, "
+              "record length <= route length, equal leading bits; VALID iff some covering record has the same non-zero AS and max-length "
+              ">= route length; INVALID iff covering non-empty and not VALID; else NOT FOUND. Reasons: NOT FOUND -> none (NULL, 0); INVALID -> "
+              "multiset-equal to covering; VALID -> sub-multiset of covering containing a matching record. Non-trivial = query with >= 2 "
+              "covering records; distinct by hash of (query, trie shape hash); only hashes = 0 mod 16 are recorded, so the count is a "
+              "lower bound on the distinct non-trivial queries."),
+        assumptions=TAB_ASSUME,
+    )
+
+
+def c02():
+    return dict(
+        id="C02", level="exploration", engine="tabmon",
+        builds=[_tab_build()],
+        runs=[_tab_run("pfx", 4800, 96000), _tab_run("pfxbig", 16, 160, args=["records=6000"])],
+        floors={"c02/enumerations_compared": T(150000, 3000000), "c02/op/remove": T(30000, 600000), "c02/src_remove_nonempty": T(4000, 80000),
+                "c02/op/add_duplicate": T(8000, 160000), "c02/op/remove_absent": T(20000, 400000)},
+        rule=(PFX_RULE + "Oracle: the model is a set of 5-tuples (prefix, len, max-len, AS, source); every operation's return code must be "
+              "the model's (SUCCESS / DUPLICATE_RECORD / RECORD_NOT_FOUND) and after EVERY operation the concatenation of "
+              "pfx_table_for_each_ipv4_record and _ipv6_record must equal the model as a multiset with all five fields intact (and each "
+              "enumerator must only yield its own family). Near-duplicates differing in exactly one field are generated on purpose. "
+              "Non-trivial = history in which a removal shrank a table that stayed non-empty; distinct by hash of the operation history."),
+        assumptions=TAB_ASSUME,
+    )
+
+
+def c09():
+    return dict(
+        id="C09", level="exploration", engine="tabmon+rtrsim",
+        builds=[_tab_build(), _sim_build()],
+        runs=[_tab_run("pfx", 3200, 64000), _sim_run("reload", 600, 12000), _sim_run("conv", 1200, 24000), _sim_run("defect", 1080, 21600),
+              _sim_run("stops", 400, 8000), _sim_run("expiry", 490, 9800)],
+        floors={"c09/replay_vs_table_checks": T(150000, 3000000), "c09/table_free_checks": T(5000, 100000), "c09/reload_netdiff_checks": T(1000, 20000)},
+        rule=(PFX_RULE + "Monitor: the installed pfx_update_fp maintains the replayed set S online: 'added' of a record already in S or "
+              "'removed' of one not in S is an immediate violation; after every public operation S must equal the enumeration of the "
+              "table, after pfx_table_free S must be empty. The same monitor runs inside rtrsim (real FSM thread vs scripted cache) where "
+              "the operations are whole cache exchanges: successful deltas, failed deltas with rollback, atomic reloads with overlapping "
+              "old/new sets (callbacks during a reload over a non-empty set must number exactly |old xor new|), failed reloads, expiry "
+              "purge, rtr_stop, table destruction; records of two other sources share the table. Distinct by history / trace hash."),
+        assumptions=TAB_ASSUME + SIM_ASSUME[:3],
+    )
+
+
+def c10():
+    return dict(
+        id="C10", level="exploration", engine="tabmon+rtrsim",
+        builds=[_tab_build(), _sim_build()],
+        runs=[_tab_run("spki", 640, 12800), _sim_run("reload", 400, 8000), _sim_run("stops", 300, 6000)],
+        floors={"c10/get_all_checked": T(500000, 10000000), "c10/search_by_ski_checked": T(100000, 2000000), "c10/copy_swap_diff_cycles": T(1500, 30000),
+                "c10/histories_crossing_grow_step": T(300, 6000), "c10/histories_shrinking_below_eighth": T(100, 2000), "c10/callbacks": T(200000, 4000000)},
+        rule=("Histories over router keys with 5 shared SKIs and AS numbers found by a start-up search to collide in the low 10 bits of "
+              "tommy_inthash_u32 (bucket sharing between different AS numbers), target sizes 8..1100 so that the linear hash table grows "
+              "past 33/65/129/257/513/1025 entries and shrinks again below 1/8 load; operations: add, duplicate add, remove, remove of a "
+              "near-duplicate (AS, key or source differs), remove-by-source, and the reload pattern copy_except_socket + add + swap + "
+              "notify_diff, plus a raw swap. Oracle: flat model of (AS, SKI, key, source); return codes must be the model's; after every "
+              "operation get_all(AS, SKI) for all 65 pairs (sampled when the table is large) and search_by_ski for all SKIs must be "
+              "multiset-equal to the model; the spki_update_fp callbacks are replayed and must reproduce the table, also inside rtrsim "
+              "(reloads, stop, expiry). Distinct by history hash."),
+        assumptions=TAB_ASSUME,
+    )
+
+
+SPECS.update({"C01": c01, "C02": c02, "C09": c09, "C10": c10})
+
+
+def c18():
+    return dict(
+        id="C18", level="fault_enumeration", engine="tabmon+rtrsim",
+        builds=[_tab_build(), _sim_build()],
+        runs=[_tab_run("allocpfx", 480, 9600), _tab_run("allocspki", 160, 3200),
+              dict(name="allocsync", bin="rtrsim", config="asan", mode="allocsync", cases=T(1024, 16384), timeout=2400, chunks=64,
+                   remap_props={"C03": "C18"})],
+        floors={"c18/runs_with_injected_failure": T(15000, 300000), "c18/sync/runs_with_injected_failure": T(900, 14000),
+                "c18/pfx/leak_checks": T(400, 8000), "c18/spki/leak_checks": T(100, 2000), "c18/sync/leak_checks": T(20, 300),
+                "c18/pfx/validate_hit_by_failure": T(500, 10000)},
+        rule=("A counting / failing allocator is installed through the public lrtr_set_alloc_functions(); every block carries a header "
+              "(magic, size, serial) so a block freed through libc free(), a foreign block, a double free and a leak are detected "
+              "exactly. Each history is first run failure-free (leak accounting: nothing may remain allocated once the tables are "
+              "freed), then re-run once per allocation request k with the k-th request (malloc or realloc) returning NULL. pfx / spki "
+              "histories: the operation hit by the failure must either return an error with the enumeration equal to the state before, "
+              "or succeed with its full effect; the remaining history must keep passing the C02 / C10 set checks. allocsync: a real "
+              "synchronisation conversation (first sync with > 100 PDUs per type, delta, Cache Reset + atomic reload through shadow "
+              "tables, > 129 router keys) with k spread over all its allocation requests: no crash, and the C03 exchange oracle "
+              "(records unchanged or purged, other sources intact) must hold; failure-free variants with rtr_stop at the k-th "
+              "cancellation point are leak-checked. The monitors' own lookups are neither counted nor failed. Distinct by (history, k)."),
+        assumptions=TAB_ASSUME + ["leaks on failure paths are outside the property (it speaks of failure-free runs)"],
+    )
+
+
+SPECS.update({"C18": c18})
